@@ -7,6 +7,7 @@ package vh
 import (
 	"fmt"
 	"math"
+	"net/http/httptest"
 	"path/filepath"
 	"sort"
 	"sync"
@@ -15,6 +16,8 @@ import (
 	"time"
 
 	"github.com/prometheus/client_golang/prometheus"
+	dto "github.com/prometheus/client_model/go"
+	"github.com/prometheus/common/expfmt"
 	vegeta "github.com/tsenart/vegeta/v12/lib"
 	"github.com/tsenart/vegeta/v12/lib/prom"
 )
@@ -87,9 +90,43 @@ func TestDrv_C20(t *testing.T) {
 					}
 					// the results arrive in three phases that lie more than an hour of (virtual) time apart, as in a soak test;
 					// the registry is gathered after each phase and once more after a further idle hour
+					// half of the cases read the metrics the way a scraper does, through the HTTP handler of the exporter (text
+					// exposition, parsed back), and are scraped all the while results are being observed
+					handler := prom.NewHandler(reg, time.Now())
+					viaHTTP := (cases/2)%2 == 0 // both the sequential and the concurrent case of a pair
+					scrape := func() ([]*dto.MetricFamily, error) {
+						rec := httptest.NewRecorder()
+						handler.ServeHTTP(rec, httptest.NewRequest("GET", "/metrics", nil))
+						var parser expfmt.TextParser
+						m, err := parser.TextToMetricFamilies(rec.Body)
+						if err != nil {
+							return nil, err
+						}
+						var fams []*dto.MetricFamily
+						for _, f := range m {
+							fams = append(fams, f)
+						}
+						sort.Slice(fams, func(i, j int) bool { return fams[i].GetName() < fams[j].GetName() })
+						return fams, nil
+					}
 					phase := func(lo, hi int) {
 						if concurrent {
 							var wg sync.WaitGroup
+							if viaHTTP { // scrapes overlap the observations
+								stop, done := make(chan struct{}), make(chan struct{})
+								go func() {
+									defer close(done)
+									for {
+										select {
+										case <-stop:
+											return
+										default:
+											_, _ = scrape()
+										}
+									}
+								}()
+								defer func() { close(stop); <-done }()
+							}
 							for g := 0; g < 16; g++ {
 								wg.Add(1)
 								go func(g int) {
@@ -109,6 +146,9 @@ func TestDrv_C20(t *testing.T) {
 					obs += n
 					gather := func() {
 						fams, err := reg.Gather()
+						if viaHTTP {
+							fams, err = scrape()
+						}
 						if err != nil {
 							tr.Emit("Panic", KV{"what": "Gather", "value": err.Error()})
 							return
@@ -133,6 +173,9 @@ func TestDrv_C20(t *testing.T) {
 								if h := m.GetHistogram(); h != nil {
 									var bs []uint64
 									for _, b := range h.GetBucket() {
+										if math.IsInf(b.GetUpperBound(), 1) {
+											continue // the text exposition spells out the +Inf bucket (= the sample count); Gather leaves it implicit
+										}
 										bs = append(bs, b.GetCumulativeCount())
 									}
 									hists = append(hists, KV{"method": lb["method"], "url": lb["url"], "status": atoi(code), "count": h.GetSampleCount(),
